@@ -122,7 +122,11 @@ def run_case(scn, mode, k1=None, k2=None, sig=None, count_only=False):
             deadline = time.monotonic() + 1.0
             while time.monotonic() < deadline and out.ledger_obj.alive():
                 time.sleep(0.01)
-            info['orphans'] = [e['name'] for e in out.ledger_obj.alive()]
+            # logical criterion, not timing: a live worker whose run() body has not ended is still executing its
+            # task (a worker that is merely slow to exit after delivering its result is not an orphan)
+            from vlab import events as _ev
+            ended_now = {e['name'] for e in _ev.read_events(out.ctl) if e['k'] == 'end' and e.get('gen') == 1}
+            info['orphans'] = [e['name'] for e in out.ledger_obj.alive() if e['name'] not in ended_now]
         for e in out.ledger_obj.alive():
             out.ledger_obj.kill(e)
 
